@@ -35,6 +35,8 @@ type C03Case struct {
 	LimitAct   string `json:"limit_action"`
 	Break      string `json:"break,omitempty"` // "", truncate:<n>, dropdelim
 	SplitCooks bool   `json:"split_cookie_headers,omitempty"`
+	// SplitAtLimit: a body above the limit is written in two pieces, the first ending exactly at the limit
+	SplitAtLimit bool `json:"split_at_limit,omitempty"`
 	// how the media type of a urlencoded / multipart body is written: parameters after it, letter case
 	CTParam string `json:"content_type_param,omitempty"`
 	CTUpper bool   `json:"content_type_upper,omitempty"`
@@ -262,6 +264,7 @@ func genC03(t *rapid.T) *C03Case {
 		case 0:
 			c.BodyLimit = rapid.IntRange(1, 60).Draw(t, "bodylimit")
 			c.LimitAct = rapid.SampledFrom([]string{"Reject", "ProcessPartial"}).Draw(t, "limitact")
+			c.SplitAtLimit = rapid.Bool().Draw(t, "splitatlimit")
 		}
 		if c.Carrier != "urlencoded" && rapid.IntRange(0, 5).Draw(t, "break") == 0 {
 			c.Break = rapid.SampledFrom([]string{"truncate", "dropdelim"}).Draw(t, "breakkind")
@@ -385,7 +388,16 @@ func (c *C03Case) run() (*c03Obs, string, *Failure) {
 		var it *types.Interruption
 		if it = tx.ProcessRequestHeaders(); it == nil {
 			if body != "" {
-				it, _, _ = tx.WriteRequestBody([]byte(body))
+				// a body larger than the limit arrives in two pieces, the first one ending exactly at the limit
+				// (as it does when a connector forwards what it has read so far)
+				if c.BodyLimit > 0 && c.BodyLimit < len(body) && c.SplitAtLimit {
+					it, _, _ = tx.WriteRequestBody([]byte(body[:c.BodyLimit]))
+					if it == nil {
+						it, _, _ = tx.WriteRequestBody([]byte(body[c.BodyLimit:]))
+					}
+				} else {
+					it, _, _ = tx.WriteRequestBody([]byte(body))
+				}
 			}
 			if it == nil {
 				it, _ = tx.ProcessRequestBody()
@@ -580,6 +592,9 @@ func checkC03(c *C03Case) Result {
 	res.Labels = append(res.Labels, "carrier:"+c.Carrier)
 	if c.CTParam != "" {
 		res.Labels = append(res.Labels, "content-type-with-parameter")
+	}
+	if c.SplitAtLimit && c.BodyLimit > 0 {
+		res.Labels = append(res.Labels, "body-split-at-limit")
 	}
 	dup := hasDupOrCaseVariant(c.Pairs)
 	if dup {
